@@ -10,6 +10,8 @@ mod c07;
 mod c08;
 mod c09;
 mod c10;
+mod c11;
+mod c11san;
 mod c12;
 mod c13;
 mod c14;
@@ -100,6 +102,7 @@ fn main() {
         "C08" => c08::run(mk("C08")),
         "C09" => c09::run(mk("C09")),
         "C10" => c10::run(mk("C10")),
+        "C11" => c11::run(mk("C11")),
         "C12" => c12::run(mk("C12")),
         "C13" => c13::run(mk("C13")),
         "C14" => c14::run(mk("C14")),
